@@ -3777,6 +3777,40 @@ def inplace_ops(body):
     return out
 
 
+def _fresh_at(f, body, node, name):
+    """every definition of `name` reaching `node` is a new container (copying
+    constructor, display, comprehension, `.copy()`) made inside `body`"""
+    from ..cfg import cfg_of
+    from ..flow import reaching_defs
+    from .. import idioms as _I
+    try:
+        g = cfg_of(f)
+        sm = _I.stmt_node_map(g)
+    except Exception:                                            # noqa
+        return False
+    if id(node) not in sm:
+        return False
+    inside = {id(x) for x in walk(body)}
+    rds = reaching_defs(g, name, sm[id(node)].id)
+    if not rds:
+        return False
+    for dn, v in rds:
+        if v is None or id(dn.ast) not in inside:
+            return False
+        fresh = isinstance(v, (ast.Dict, ast.List, ast.Set, ast.ListComp,
+                               ast.DictComp, ast.SetComp))
+        if isinstance(v, ast.Call):
+            nm = dotted(v.func) or ''
+            fresh = nm in ('dict', 'list', 'set', 'sorted', 'copy.copy',
+                           'copy.deepcopy', 'deepcopy', 'OrderedDict',
+                           'collections.OrderedDict') or (
+                isinstance(v.func, ast.Attribute) and v.func.attr == 'copy'
+                and not v.args)
+        if not fresh:
+            return False
+    return True
+
+
 def r10_12(prog, rep, rid='R10.12'):
     rep.rule(rid, 'the per-rank rendering of _get_prep_exec (rank loop, the '
              'helpers and nested functions called from it) only reads the '
@@ -3804,6 +3838,13 @@ def r10_12(prog, rep, rid='R10.12'):
                     else None
                 if ds is None or any(id(d[2]) in inside for d in ds
                                      if d[0] in ('assign', 'iter', 'unpack')):
+                    lv = 0
+            if lv and isinstance(recv, ast.Name):
+                # flow-sensitive refinement: every definition of the name that
+                # reaches this operation is a fresh container built inside the
+                # loop (`entry = dict(entry)`; `cmds = list(cmds)`): the change
+                # stays with this rank
+                if _fresh_at(g, body, node, recv.id):
                     lv = 0
             rep.check(lv == 0, rid, g, '`%s` does not change the described '
                       'entries' % short(node, 50), construct=node,
@@ -5714,6 +5755,8 @@ MUTATIONS += [] if not _R13 else [
              "            lines.append('        ' + template % ('; '.join(_rank_cmds(str(rank_id))), sig))\n")]),
 ]
 SILENT += [
+    dict(name='entries site: every entry copied into a fresh dict for this rank, then changed', edits=[
+        (_E, _EL, "            for entry in entries:\n\n                if isinstance(entry, str):\n                    entry = {str(rank_id): entry}\n                else:\n                    entry = dict(entry)\n                entry.pop('no such rank', None)\n")]),
     dict(name='entries site: enumerate over the entries, nothing stored', edits=[
         (_E, _EL, "            for idx, entry in enumerate(entries):\n\n                if isinstance(entry, str):\n                    entry = {str(rank_id): entry}\n")]),
     dict(name='entries site: converted entry stored into a copy made for this rank', edits=[
